@@ -1,9 +1,9 @@
 CONSTANTS
   Dev_HitlExactClass = TRUE
-  ClassesU = {"Start", "Start0", "Stop", "Stop0", "IR", "Ask", "HR", "Resp", "Failed"}
-  MaxAcc = 1
-  MaxRet = 1
-  MaxReg = 3
+  ClassesU = {"Start0", "Stop", "Stop0"}
+  MaxAcc = 2
+  MaxRet = 2
+  MaxReg = 2
   SSkips = {{}}
   WSkips = {{}}
   MaxH = 0
@@ -12,5 +12,4 @@ CONSTANTS
   Ordered = FALSE
   PruneNoStart = TRUE
 SPECIFICATION Spec
-INVARIANT Inv_Faithful
-INVARIANT Inv_Repr
+INVARIANT Inv_ReprAnyClass
